@@ -27,6 +27,9 @@ class PathDomain(Domain):
                 return ('v', self.consts[txt])
             if isinstance(e, ast.Constant):
                 return ('v', e.value)
+            if isinstance(e, ast.UnaryOp) and isinstance(e.op, ast.USub) and isinstance(e.operand, ast.Constant) and isinstance(e.operand.value, (int, float)) \
+                    and not isinstance(e.operand.value, bool):
+                return ('v', -e.operand.value)
             if isinstance(e, (ast.Tuple, ast.List)):
                 xs = [val(x) for x in e.elts]
                 return ('v', tuple(x[1] for x in xs)) if all(x is not None for x in xs) else None
@@ -178,13 +181,12 @@ class PathDomain(Domain):
             t, tr = t.operand, not tr
         canon = self._canon(t, env)
         text = norm_text(canon)
-        if self.consts:
-            try:
-                known = self._fold(ast.parse(canon, mode='eval').body)
-            except SyntaxError:
-                known = None
-            if known is not None:
-                return state if known == tr else None
+        try:
+            known = self._fold(ast.parse(canon, mode='eval').body)          # assumed constants and tests between literals
+        except SyntaxError:
+            known = None
+        if known is not None:
+            return state if known == tr else None
         if text in ('True', 'False'):
             return state if (text == 'True') == tr else None
         nn = self._none_test(canon)
